@@ -3,6 +3,8 @@ import VirtioVerif.Model.Layout
 import VirtioVerif.Model.Queue
 import VirtioVerif.Model.Blk
 import VirtioVerif.Model.Net
+import VirtioVerif.Model.Mmio
+import VirtioVerif.Model.Config
 /-!
 Native line-protocol driver over all models: one request line in, one reply line out.
 `case …` lines reset per-case state and are echoed as `case`.
@@ -25,6 +27,8 @@ def step (w : World) (line : String) : World × String :=
     let (q, o) := Queue.handle w.queue op (Proto.parseArgs rest); ({ w with queue := q }, o)
   | "blk" :: op :: rest => let (s, o) := Blk.handle w.blk op (Proto.parseArgs rest); ({ w with blk := s }, o)
   | "net" :: op :: rest => let (s, o) := Net.handle w.net op (Proto.parseArgs rest); ({ w with net := s }, o)
+  | "mmio" :: op :: rest => (w, Mmio.handle op (Proto.parseArgs rest))
+  | "config" :: op :: rest => (w, Config.handle op (Proto.parseArgs rest))
   | _ => (w, "bad-op")
 
 partial def loop (h : IO.FS.Stream) (out : IO.FS.Stream) (w : World) : IO Unit := do
